@@ -28,9 +28,9 @@ func init() {
 	replays["C16"] = c16run
 }
 
-type pt struct{ x, y float64 }     // Web-Mercator, world = [0,1)^2, y down
-type ring []pt                     // closed: last = first
-type poly []ring                   // outer ring, then holes
+type pt struct{ x, y float64 } // Web-Mercator, world = [0,1)^2, y down
+type ring []pt                 // closed: last = first
+type poly []ring               // outer ring, then holes
 type region struct {
 	polys []poly
 	lons  [][]int64 // decimal coordinates (scale 4) per ring, for JSON and the header model
